@@ -79,6 +79,37 @@ impl TinyLFU {
     }
 }
 
+#[cfg(feature = "verif_hooks")]
+impl TinyLFU {
+    pub(crate) fn verif_progress(&self) -> (u64, u64) { (self.total_increments, self.reset_counters_at) }
+}
+
+/// Thin public wrapper for the verification harness (feature `verif_hooks` only).
+#[cfg(feature = "verif_hooks")]
+pub mod verif_api {
+    use super::TinyLFU;
+    use crate::cache::lfu::frequency_counter::verif_api::VerifFrequencyCounter;
+    use crate::cache::types::{FrequencyEstimate, KeyHash, TotalCounters};
+
+    pub struct VerifTinyLFU(TinyLFU);
+
+    impl VerifTinyLFU {
+        pub fn new(counters: TotalCounters) -> Self { VerifTinyLFU(TinyLFU::new(counters)) }
+        pub fn increment_access(&mut self, key_hashes: Vec<KeyHash>) { self.0.increment_access(key_hashes); }
+        pub fn estimate(&self, key_hash: KeyHash) -> FrequencyEstimate { self.0.estimate(key_hash) }
+        pub fn clear(&mut self) { self.0.clear(); }
+        pub fn total_increments(&self) -> u64 { self.0.total_increments }
+        pub fn reset_counters_at(&self) -> u64 { self.0.reset_counters_at }
+        pub fn door_keeper_has(&self, key_hash: KeyHash) -> bool { self.0.door_keeper.has(&key_hash) }
+        pub fn sketch_estimate(&self, key_hash: KeyHash) -> FrequencyEstimate { self.0.key_access_frequency.estimate(key_hash) }
+        pub fn rows(&self) -> Vec<Vec<u8>> { self.counter_view().rows() }
+        pub fn seeds(&self) -> [u64; 4] { self.counter_view().seeds() }
+        pub fn total_counters(&self) -> u64 { self.counter_view().total_counters() }
+
+        fn counter_view(&self) -> VerifFrequencyCounter { VerifFrequencyCounter(self.0.key_access_frequency.verif_clone()) }
+    }
+}
+
 #[cfg(test)]
 mod tests {
     use crate::cache::lfu::tiny_lfu::TinyLFU;
